@@ -110,14 +110,19 @@ def run(ctx):
     hc = f"{CN}.HTTPSConnection"
     cf = m.method(hc, "connect")
 
+    ORIGIN_SETTINGS = ("assert_hostname", "assert_fingerprint", "cert_reqs", "ca_certs", "ca_cert_dir", "ca_cert_data", "ssl_context")
+
     class CR(BaseRule):
         def __init__(self):
             self.wraps = []
+            self.wrap_kw = []
 
         def getattr(self, it, st, node, base):
             t = ast.unparse(node)
             if t == "self._connect_callback":
                 return const(None)
+            if base.kind == "self" and node.attr in ORIGIN_SETTINGS and ("self", node.attr) not in st.heap:
+                return AV("unk", sym=f"self.{node.attr}", tags=frozenset({f"self.{node.attr}"}))
             return None
 
         def call(self, it, st, node, recv, pos, kw):
@@ -127,6 +132,7 @@ def run(ctx):
                 s.ts["ev"] = s.ts.get("ev", ()) + ("origin-wrap",)
                 tit = kw.get("tls_in_tls")
                 self.wraps.append((tit, s))
+                self.wrap_kw.append((dict(kw), s))
                 return [Out("normal", s, AV("obj", "wrapped", truth=True, none=False))]
             if t == "self._connect_tls_proxy":
                 s = st.copy()
@@ -165,6 +171,17 @@ def run(ctx):
         else:
             ok = seq == ("origin-wrap",) and tit is not None and tit.kind == "const" and tit.val is False
             ctx.ob(R5, cf.qual, f"not tunnelling: events {seq}, tls_in_tls False", ok, witness=s.witness(), node=cf.node)
+    # inside the tunnel the destination is verified with the connection's own settings, never with the proxy's
+    seen = set()
+    for kw_, s in cr.wrap_kw:
+        got = tuple((p_, tuple(sorted(kw_[p_].tags)) if p_ in kw_ else None) for p_ in ORIGIN_SETTINGS)
+        if got in seen:
+            continue
+        seen.add(got)
+        bad = [p_ for p_, tg in got if tg is None or f"self.{p_}" not in tg]
+        ctx.ob(R5, cf.qual, "the origin handshake is verified with the connection's own assert_hostname / assert_fingerprint / cert_reqs / CA settings", not bad,
+               "" if not bad else f"{bad} handed to the origin wrap do not come from the connection's own fields ({dict(got)}): inside a tunnel the destination would be verified with the proxy's assertions (or none)",
+               witness=s.witness(), node=cf.node)
     c09_rows.r5_proxy_tls(ctx, R5, [s_ for _, s_ in cr.wraps])
 
     # ------------------------------------------------------------------ R6 dial the proxy
@@ -174,6 +191,7 @@ def run(ctx):
     # ------------------------------------------------------------------ R7 bracketed CONNECT host
     R7 = ctx.rule("C09-R7", "the CONNECT target is the URL's host with IPv6 brackets kept and the pool's port: set_tunnel(host=self._tunnel_host, port=self.port) where _tunnel_host comes from the bracket-preserving normaliser", "E6")
     c09_rows.r7_connect_target(ctx, R7)
+    c09_rows.r7_set_tunnel(ctx, R7)
 
     # ------------------------------------------------------------------ R8 request-target form
     R8 = ctx.rule("C09-R8", "request-target form: the manager hands the pool the absolute URL iff a proxy is used without tunnel, else the origin-form request_uri", "E4")
